@@ -144,9 +144,11 @@ func observe(a Event, ad bchutil.Address, err error, p bool, msg string, env []i
 	var fn []bool
 	pp, pmsg := guard(func() {
 		e["rtype"] = fmt.Sprintf("%T", ad)
-		e["payload"] = ints(ad.ScriptAddress())
-		e["str"] = str(ad.String())
-		e["enc"] = str(ad.EncodeAddress())
+		sa := ad.ScriptAddress()
+		retain("Address", "ScriptAddress", sa)
+		e["payload"] = ints(sa)
+		e["str"] = str(retainStr("Address", "String", ad.String()))
+		e["enc"] = str(retainStr("Address", "EncodeAddress", ad.EncodeAddress()))
 		for _, n := range nets {
 			fn = append(fn, ad.IsForNet(n))
 		}
@@ -326,6 +328,7 @@ func opDecodeCash(_ *HState, a Event) Event {
 	var data []byte
 	var err error
 	p, msg := guard(func() { prefix, data, err = bchutil.DecodeCashAddress(s) })
+	retain("DecodeCashAddress", "data", data)
 	e := with(a, "ok", err == nil && !p, "rprefix", str(prefix), "rdata", ints(data))
 	if err != nil || p {
 		e["rprefix"] = []int{}
